@@ -94,26 +94,19 @@ Lemma elem_eq_mk k x z r :
 Proof. destruct k, z; cbn [scalar]; intros Hs; try contradiction; reflexivity. Qed.
 
 (* equality of rtosc_arg_vals_eq_single is identity - for floats and doubles
-   when they are no NaN and not the negative zero (inrv below; signed-zero-run) *)
+   when they are no NaN and one of the two zeroes does not occur (inrv below;
+   signed-zero-run) *)
 Definition exact (v : av) : Prop :=
   match v with VArr _ _ | VRep _ _ | VSpc _ => False | _ => True end.
 
-Definition flgood (mb eb b : Z) : Prop :=
-  0 <= b < 2 ^ (mb + eb + 1) /\ fl_isnan mb eb b = false /\ b <> 2 ^ (mb + eb).
+(* z0: the zero pattern (+0.0 or -0.0) that does not occur *)
+Definition flgood (mb eb z0 b : Z) : Prop :=
+  0 <= b < 2 ^ (mb + eb + 1) /\ fl_isnan mb eb b = false /\ b <> z0.
 
-(* values in the range of their type *)
-Definition inrv (v : av) : Prop :=
-  match v with
-  | VI z | VC z => - 2 ^ 31 <= z < 2 ^ 31
-  | VH z => - 2 ^ 63 <= z < 2 ^ 63
-  | VFl b => flgood 23 8 b
-  | VD b => flgood 52 11 b
-  | _ => True
-  end.
-
-Lemma fl_eq_id32 a b : flgood 23 8 a -> flgood 23 8 b -> fl_eq 23 8 a b = true -> b = a.
+Lemma fl_eq_id32 z0 a b : z0 = 0 \/ z0 = 2 ^ 31 ->
+  flgood 23 8 z0 a -> flgood 23 8 z0 b -> fl_eq 23 8 a b = true -> b = a.
 Proof.
-  unfold flgood, fl_eq, fl_key. change (23 + 8 + 1) with 32. change (23 + 8) with 31.
+  intros Hz0. unfold flgood, fl_eq, fl_key. change (23 + 8 + 1) with 32. change (23 + 8) with 31.
   intros (Ha & _ & Ha0) (Hb & _ & Hb0) H. apply andb_true_iff in H as [_ H]. apply Z.eqb_eq in H.
   pose proof (Z.div_mod a (2 ^ 31) ltac:(lia)). pose proof (Z.mod_pos_bound a (2 ^ 31) ltac:(lia)).
   pose proof (Z.div_mod b (2 ^ 31) ltac:(lia)). pose proof (Z.mod_pos_bound b (2 ^ 31) ltac:(lia)).
@@ -123,9 +116,10 @@ Proof.
   destruct (a / 2 ^ 31 =? 1) eqn:E1; destruct (b / 2 ^ 31 =? 1) eqn:E2; lia.
 Qed.
 
-Lemma fl_eq_id64 a b : flgood 52 11 a -> flgood 52 11 b -> fl_eq 52 11 a b = true -> b = a.
+Lemma fl_eq_id64 z0 a b : z0 = 0 \/ z0 = 2 ^ 63 ->
+  flgood 52 11 z0 a -> flgood 52 11 z0 b -> fl_eq 52 11 a b = true -> b = a.
 Proof.
-  unfold flgood, fl_eq, fl_key. change (52 + 11 + 1) with 64. change (52 + 11) with 63.
+  intros Hz0. unfold flgood, fl_eq, fl_key. change (52 + 11 + 1) with 64. change (52 + 11) with 63.
   intros (Ha & _ & Ha0) (Hb & _ & Hb0) H. apply andb_true_iff in H as [_ H]. apply Z.eqb_eq in H.
   pose proof (Z.div_mod a (2 ^ 63) ltac:(lia)). pose proof (Z.mod_pos_bound a (2 ^ 63) ltac:(lia)).
   pose proof (Z.div_mod b (2 ^ 63) ltac:(lia)). pose proof (Z.mod_pos_bound b (2 ^ 63) ltac:(lia)).
@@ -150,6 +144,23 @@ Proof.
   destruct r; [now rewrite app_nil_r|cbn in Hl; lia].
 Qed.
 
+(* ---- the zero of each floating point type that is absent ------------------------- *)
+Section ZeroChoice.
+Variables zf zd : Z.
+Hypothesis Hzf : zf = 0 \/ zf = 2 ^ 31.
+Hypothesis Hzd : zd = 0 \/ zd = 2 ^ 63.
+
+(* values in the range of their type; floats and doubles: no NaN and not the
+   zero pattern zf resp. zd *)
+Definition inrv (v : av) : Prop :=
+  match v with
+  | VI z | VC z => - 2 ^ 31 <= z < 2 ^ 31
+  | VH z => - 2 ^ 63 <= z < 2 ^ 63
+  | VFl b => flgood 23 8 zf b
+  | VD b => flgood 52 11 zd b
+  | _ => True
+  end.
+
 Lemma eq_exact a z : exact a -> inrv a -> inrv z -> av_eq_single a z = Some true -> z = a.
 Proof.
   destruct a, z; cbn [exact inrv av_eq_single]; intros Hex Ha Hz H;
@@ -158,8 +169,8 @@ Proof.
     try (inversion H as [E]; apply str_eqb_eq in E; now subst).
   - inversion H as [E]. repeat (apply andb_true_iff in E as [E ?]).
     repeat match goal with Hq : (_ =? _) = true |- _ => apply Z.eqb_eq in Hq end. now subst.
-  - inversion H as [E]. f_equal. now apply fl_eq_id32.
-  - inversion H as [E]. f_equal. now apply fl_eq_id64.
+  - inversion H as [E]. f_equal. now apply (fl_eq_id32 zf).
+  - inversion H as [E]. f_equal. now apply (fl_eq_id64 zd).
 Qed.
 
 Lemma elem_eq_exact a0 z r1 r2 :
@@ -494,3 +505,4 @@ Proof.
   intros H1 H2 H3 H4 H5. destruct (range_expand_shape o args size c kk H1 H2 H3 H4 H5) as (n & A & B & C & _).
   exists n. repeat split; try assumption; lia.
 Qed.
+End ZeroChoice.
